@@ -949,6 +949,7 @@ func runMalformed(r *vs.Rand, i int, seed uint64, out *vs.Out) {
 			dec.UseNumber()
 			_ = dec.Decode(&v)
 			v = mutateAt(mr, v, 0)
+			dropScalarLastApplied(v)
 			b, _ := json.Marshal(v)
 			return vs.HookAnswer{Code: 200, Body: b}
 		}
@@ -956,6 +957,42 @@ func runMalformed(r *vs.Rand, i int, seed uint64, out *vs.Out) {
 	line := sc.syncOnce(i, seed)
 	line["scenario"] = "malformed"
 	out.Line(line)
+}
+
+// dropScalarLastApplied: a desired child that sets the last-applied annotation itself to a string, number or boolean is
+// outside what the trace format can carry: the model is handed observed objects with that one annotation decoded (an
+// object), the implementation holds it as a string, and a scalar desired value replaces a string but clashes with an object.
+// (An API server rejects non-string annotation values anyway.) Such a key is taken out of the mutated answer again.
+func dropScalarLastApplied(v interface{}) {
+	m, ok := v.(map[string]interface{})
+	if !ok {
+		return
+	}
+	kids, _ := m["children"].([]interface{})
+	for _, k := range kids {
+		km, ok := k.(map[string]interface{})
+		if !ok {
+			continue
+		}
+		md, ok := km["metadata"].(map[string]interface{})
+		if !ok {
+			continue
+		}
+		ann, ok := md["annotations"].(map[string]interface{})
+		if !ok {
+			continue
+		}
+		const la = "metacontroller.k8s.io/last-applied-configuration"
+		switch t := ann[la].(type) {
+		case string:
+			var rec map[string]interface{}
+			if json.Unmarshal([]byte(t), &rec) != nil { // an echoed record (JSON text of an object) stays
+				delete(ann, la)
+			}
+		case json.Number, int64, float64, bool:
+			delete(ann, la)
+		}
+	}
 }
 
 func runInterleave(r *vs.Rand, i int, seed uint64, out *vs.Out) {
